@@ -817,7 +817,7 @@ Ltac go_unwrap_hyps :=
          end.
 
 (* one symbolic-execution step on a goal that mentions [bind prim k h] *)
-Ltac go_step :=
+Ltac go_step_base :=
   match goal with
   | |- context [bind (bind ?m ?k) ?k' ?h] => rewrite (bind_assoc m k k' h)
   | |- context [bind (ret ?a) ?k ?h] => rewrite (bind_ret_l a k h)
@@ -831,6 +831,7 @@ Ltac go_step :=
   | |- context [bind (godiv ?w ?x ?y) ?k ?h] => rewrite (bind_godiv w x y k h) by go_side
   | |- context [bind (gorem ?w ?x ?y) ?k ?h] => rewrite (bind_gorem w x y k h) by go_side
   end.
+Ltac go_step := go_step_base.
 
 (* case split on the first condition of the goal *)
 Ltac go_if :=
@@ -861,3 +862,77 @@ Ltac go_join W :=
   | |- context [sl_put (sl_put ?h0 ?s ?a ?d1) ?s ?o ?d2] =>
       rewrite (sl_put_put_adj' h0 s a d1 o d2 W) by (unfold zlen; rewrite ?repeat_length, ?map_length; cbn [length]; lia)
   end.
+
+(** * Objects: records by id (for pointers to structs)
+
+    A pointer to a struct declared as an object type (go2coq --object S) is a
+    [Z]: 0 is nil, p > 0 is the array number p-1 of the heap, which holds the
+    fields of the pointee in declaration order (every field is a [Z]: an
+    integer, a bool as 0/1, a pointer id, an opaque handle).  [obj_new n]
+    allocates a zeroed object at the end of the heap.  A nil dereference is
+    [GoPanic]. *)
+
+Definition obj_arr (p : Z) : nat := Z.to_nat (p - 1).
+
+Definition fld_load (p : Z) (k : nat) : M Z := fun h =>
+  if p <=? 0 then GoPanic else Ok (nth k (arr_get h (obj_arr p)) 0, h).
+
+Definition fld_store (p : Z) (k : nat) (v : Z) : M unit := fun h =>
+  if p <=? 0 then GoPanic
+  else Ok (tt, arr_set h (obj_arr p) (zsplice (arr_get h (obj_arr p)) (Z.of_nat k) [v])).
+
+Definition obj_new (n : nat) : M Z := fun h => Ok (Z.of_nat (length h) + 1, h ++ [repeat 0 n]).
+
+(* append(s, v) for one element: in place when there is spare capacity
+   (len < cap), else a fresh array holding the elements and v.  Go's growth
+   policy gives the fresh array some extra capacity; here it has none, which
+   only changes when a later append reallocates (not observable without
+   keeping the old slice value). *)
+Definition goappend (s : gslice) (v : Z) : M gslice := fun h =>
+  if s_len s <? s_cap s
+  then Ok (mkSl (s_arr s) (s_off s) (s_len s + 1) (s_cap s), sl_put h (mkSl (s_arr s) (s_off s) (s_len s + 1) (s_cap s)) (s_len s) [v])
+  else Ok (mkSl (length h) 0 (s_len s + 1) (s_len s + 1), h ++ [sl_get h s ++ [v]]).
+
+(* bools stored in object fields *)
+Definition b2z (b : bool) : Z := if b then 1 else 0.
+Definition z2b (z : Z) : bool := negb (z =? 0).
+
+Section ObjSteps.
+Context {B : Type}.
+
+Lemma bind_fld_load p k (kk : Z -> M B) h : 0 < p ->
+  bind (fld_load p k) kk h = kk (nth k (arr_get h (obj_arr p)) 0) h.
+Proof. intros Hp. unfold bind, fld_load. destruct (Z.leb_spec p 0); [lia|reflexivity]. Qed.
+
+Lemma bind_fld_store p k v (kk : unit -> M B) h : 0 < p ->
+  bind (fld_store p k v) kk h =
+  kk tt (arr_set h (obj_arr p) (zsplice (arr_get h (obj_arr p)) (Z.of_nat k) [v])).
+Proof. intros Hp. unfold bind, fld_store. destruct (Z.leb_spec p 0); [lia|reflexivity]. Qed.
+
+Lemma bind_fld_load_nil k (kk : Z -> M B) h p : p <= 0 -> bind (fld_load p k) kk h = GoPanic.
+Proof. intros Hp. unfold bind, fld_load. destruct (Z.leb_spec p 0); [reflexivity|lia]. Qed.
+
+Lemma bind_obj_new n (kk : Z -> M B) h :
+  bind (obj_new n) kk h = kk (Z.of_nat (length h) + 1) (h ++ [repeat 0 n]).
+Proof. reflexivity. Qed.
+
+Lemma bind_goappend_inplace s v (kk : gslice -> M B) h : s_len s < s_cap s ->
+  bind (goappend s v) kk h =
+  kk (mkSl (s_arr s) (s_off s) (s_len s + 1) (s_cap s))
+     (sl_put h (mkSl (s_arr s) (s_off s) (s_len s + 1) (s_cap s)) (s_len s) [v]).
+Proof. intros Hc. unfold bind, goappend. destruct (Z.ltb_spec (s_len s) (s_cap s)); [reflexivity|lia]. Qed.
+
+Lemma bind_goappend_fresh s v (kk : gslice -> M B) h : s_cap s <= s_len s ->
+  bind (goappend s v) kk h =
+  kk (mkSl (length h) 0 (s_len s + 1) (s_len s + 1)) (h ++ [sl_get h s ++ [v]]).
+Proof. intros Hc. unfold bind, goappend. destruct (Z.ltb_spec (s_len s) (s_cap s)); [lia|reflexivity]. Qed.
+
+End ObjSteps.
+
+Ltac go_step_obj :=
+  match goal with
+  | |- context [bind (fld_load ?p ?f) ?k ?h] => rewrite (bind_fld_load p f k h) by go_side
+  | |- context [bind (fld_store ?p ?f ?v) ?k ?h] => rewrite (bind_fld_store p f v k h) by go_side
+  | |- context [bind (obj_new ?n) ?k ?h] => rewrite (bind_obj_new n k h)
+  end.
+Ltac go_step ::= first [go_step_base | go_step_obj].
